@@ -162,6 +162,8 @@ def function_cases(draw):
         "seed": draw(st.integers(0, 2**20)),
         "batch": draw(st.lists(st.integers(1, 4), min_size=0 if kind == "linear" else 1, max_size=2)),  # () = a single vector
         "mag": draw(st.sampled_from([1.0, 1.0, 0.1, 8.0])),
+        # how the float module holds its weight: a plain Parameter, or computed by a parametrization / a pruning mask
+        "wform": draw(st.sampled_from(["plain", "plain", "plain", "weight_norm", "prune"])),
     }
     if kind == "linear":
         c["hp"] = {"t": "linear", "i": draw(st.sampled_from([1, 2, 5, 8, 16, 24, 33, 64, 130, 160, 256])), "o": draw(st.integers(1, 9)), "bias": draw(st.booleans())}
@@ -200,6 +202,16 @@ def _exec_function(case):
     aq, wq = ACT[case["aq"]], O.QTALL.get(case["wq"])
     fm = M.build_tree(case["hp"], g)
     model = torch.nn.Sequential(fm).to(dtype)
+    if kind != "ln" and case.get("wform", "plain") != "plain":
+        # (applied to the module in its final dtype: the derived weight attribute is what the module computes with)
+        if case["wform"] == "weight_norm":
+            model[0] = torch.nn.utils.parametrizations.weight_norm(fm)
+        else:
+            import torch.nn.utils.prune as prune
+
+            torch.manual_seed(case["seed"])
+            prune.random_unstructured(fm, name="weight", amount=0.3)
+    w_float = None if getattr(fm, "weight", None) is None else model[0].weight.detach().clone()
     if kind == "linear":
         shape = tuple(case["batch"]) + (case["hp"]["i"],)
     elif kind == "conv":
@@ -232,6 +244,9 @@ def _exec_function(case):
     qm = model[0]
     if not isinstance(qm, QModuleMixin):
         return out.fail(f"{tag}/not-quantized", type(qm).__name__)
+    if w_float is not None and not isinstance(qm.weight, QTensor) and not torch.equal(qm.weight.detach(), w_float):
+        out.klass.append(f"wform-{case.get('wform', 'plain')}")
+        return out.fail(f"{tag}/float-weight-not-kept", f"the quantized module does not hold the float weight of the module it replaces ({case.get('wform', 'plain')} weight, {case['dtype']})")
     if case["seed"] % 2:
         model.eval()  # inference users put the model in eval mode: nothing here depends on it
         out.klass.append("eval-mode")
